@@ -145,6 +145,17 @@ func (u *Unit) VerifyFunc() {
 				if lbl == "" {
 					lbl = fmt.Sprintf("c%d", i)
 				}
+				if len(u.uncontracted) > 0 {
+					// the call may have moved into a helper that has no contract yet: that is
+					// not a violation, the contract files have to follow the refactoring
+					var hs []string
+					for h := range u.uncontracted {
+						hs = append(hs, h)
+					}
+					sort.Strings(hs)
+					u.errs = append(u.errs, fmt.Sprintf("cannot decide assert_call %s (%s): no call to %s here, but this function calls %s which has no contract", cl.Desig, lbl, cl.Desig, strings.Join(hs, ", ")))
+					continue
+				}
 				o := u.getOblig(u.obligName("assert_call:"+cl.Desig, lbl+"#missing"), "assert_call", u.tagsOr(cl.Tags), u.Fn.Pos(), "assert_call "+cl.Text+" (no call to "+cl.Desig+" is reachable)")
 				o.Paths++
 				o.Failures = append(o.Failures, &Failure{Asserts: []string{"true"}, Goal: "false", Result: "sat"})
